@@ -211,6 +211,13 @@ def limit_cases(rng):
     for nk, nops in ((20, 180), (20, 181), (20, 182), (3, 197), (3, 198), (3, 199)):
         s = b'\x00' + b'\x00' + b''.join(push(b'k') for _ in range(nk)) + push_num(nk) + b'\xae' + b'\x61' * nops
         c.append(([], s))
+    # opcodes that do NOT count towards the 201-operation limit (OP_0, pushes, OP_1NEGATE, OP_1..OP_16,
+    # also inside an unexecuted branch) in scripts sitting exactly at the bound
+    for n in (200, 201, 202):
+        for free in (b'\x00', b'\x4f', b'\x51', b'\x60', b'\x01\x07', b'\x4c\x01\x07', b'\x4f\x4f\x4f'):
+            c.append(([], free + b'\x61' * n))
+            c.append(([], b'\x00\x63' + free + b'\x68' + b'\x61' * (n - 2) + b'\x51'))
+        c.append(([], b'\x4f\x00' + b''.join(push(b'k') for _ in range(20)) + b'\x01\x14\xae' + b'\x61' * (n - 21)))
     # key / signature counts outside 0..20, shallow and deep stacks
     for cnt in (-1, -3, -21, 21, 255):
         for depth in (0, 1, 3, 25):
